@@ -1410,9 +1410,15 @@ class FortranReaderBase:
             # CPP directive line
             lines = []
             while line.rstrip().endswith("\\"):
-                # Line continuation
+                # Line continuation. The next physical line belongs to the
+                # directive whatever it looks like, so it must not be
+                # skipped as a (fixed-format) comment line.
                 lines.append(line.rstrip()[:-1])
-                line = get_single_line()
+                line = get_single_line(ignore_comments=False)
+                if line is None:
+                    # The source ends after the backslash.
+                    line = ""
+                    break
             lines.append(line)
             endlineno = self.linecount
             return self.cpp_directive_item("".join(lines), startlineno, endlineno)
